@@ -148,9 +148,14 @@ def _attack(col, ctx, np, shard, only):
                 cstep = (N // 3 + 1) if bi_ % 2 == 1 else None
                 case = {'cipher': cipher, 'sf': sfname, 'attack': att, 'key': key.tolist(), 'batch_size': bs, 'model': model, 'convergence_step': cstep}
                 label = '%s %s %s key=%s batch_size=%d convergence_step=%s' % (att, cipher, sfname, bytes(key.tolist()).hex(), bs, cstep)
+                # the last configuration runs the attack on traces riding on a DC level that the Container removes with a preprocess (MIA then also derives its histogram window by itself)
+                pre = bi_ == len(bss) - 1
+                if pre:
+                    case['container'] = 'traces + 120, preprocesses=[CenterOn(120)]'; label += ' [DC level removed by a Container preprocess]'
+                    ths_off = scared.traces.read_ths_from_ram((traces + 120.0).astype('float32'), **{tag: data, 'key': np.tile(key, (N, 1))})
                 try:
                     with asys.BatchSize(bs):
-                        scores, wlist = _run_attack(np, scared, att, SF, mo, model, ths, words, cipher, nguess, tag, inter, traces, N, cstep)
+                        scores, wlist = _run_attack(np, scared, att, SF, mo, model, ths, words, cipher, nguess, tag, inter, traces, N, cstep, ths_off if pre else None)
                 except Exception as e:
                     col.violation('C17/%s/%s/%s/raised' % (att, cipher, sfname), '%s: %s %s' % (label, type(e).__name__, str(e)[:200]), case); continue
                 col.transitions += 1
@@ -175,9 +180,9 @@ def _attack(col, ctx, np, shard, only):
     col.guard(col.evaluations > 0, 'vacuity: nothing attacked')
 
 
-def _run_attack(np, scared, att, SF, mo, model, ths, words, cipher, nguess, tag, inter, traces, N, cstep=None):
+def _run_attack(np, scared, att, SF, mo, model, ths, words, cipher, nguess, tag, inter, traces, N, cstep=None, ths_off=None):
     """-> (scores per attacked word: list of arrays over guesses, list of words)"""
-    cont = scared.Container(ths)
+    cont = scared.Container(ths) if ths_off is None else scared.Container(ths_off, preprocesses=[scared.preprocesses.CenterOn(mean=np.full(traces.shape[1], 120.0), precision='float64')])
     if att in ('cpa', 'dpa', 'anova', 'nicv', 'snr', 'mia'):
         sf = SF(words=words) if len(words) != (16 if cipher == 'aes' else 8) else SF()
         ckw = {} if cstep is None else {'convergence_step': cstep}
@@ -191,6 +196,8 @@ def _run_attack(np, scared, att, SF, mo, model, ths, words, cipher, nguess, tag,
             if att == 'mia':
                 hi = float(max(parts)) + 0.5
                 kw['bin_edges'] = np.linspace(-0.5, hi, int(hi + 0.5) + 1)
+                if ths_off is not None:
+                    del kw['bin_edges']; kw['bins_number'] = 4 * (int(hi + 0.5))          # automatic window (range of the first batch of PREPROCESSED samples), bins of a quarter of a level
                 if N % 3 != 0 or True:
                     kw['precision'] = ('uint32', 'float32')[_run_attack.n % 2]; _run_attack.n += 1     # MIA counts in an integer dtype by default: both kinds of precision
             a = C(**kw)
